@@ -121,7 +121,9 @@ func (storage *tsstoreImpl) ForceFlush(s *shard) {
 	defer s.disableForceFlush()
 
 	s.waitSnapshot()
-	s.prepareSnapshot()
+	if !s.prepareForcedSnapshot() {
+		return
+	}
 	s.storage.writeSnapshot(s)
 	s.endSnapshot()
 }
